@@ -64,6 +64,29 @@ Proof.
     apply str_slice_panic in E as [-> _]; [reflexivity|lia|lia].
 Qed.
 
+
+(** exact characterisation: SUBSTRING(s FROM start FOR l) panics iff the window is non-empty and its
+    first or last byte offset falls inside a multi-byte character *)
+Theorem substring3_panic_iff p s start l x :
+  str_ok s -> i64_ok start -> i64_ok l ->
+  (substring p [VVarchar s; VInteger start; VInteger l] = Panic x <->
+   x = PCharBoundary /\ start_index start < len s /\ 0 < l /\
+   is_char_boundary s (start_index start) && is_char_boundary s (Z.min (start_index start + l) (len s)) = false).
+Proof.
+  intros Hs Hst Hl. rewrite substring3_spec by assumption. pose proof (start_index_nonneg start) as Hn.
+  destruct (Z.leb_spec (len s) (start_index start)) as [Hge|Hlt].
+  { split; [discriminate|]. intros (_ & Hc & _). lia. }
+  destruct (Z.leb_spec l 0) as [Hle|Hpos].
+  { split; [discriminate|]. intros (_ & _ & Hc & _). lia. }
+  unfold str_slice.
+  destruct (Z.ltb_spec (Z.min (start_index start + l) (len s)) (start_index start)); [lia|].
+  destruct (Z.ltb_spec (len s) (Z.min (start_index start + l) (len s))); [lia|].
+  destruct (Z.ltb_spec (start_index start) 0); [lia|]. cbn [orb].
+  destruct (is_char_boundary s (start_index start) && is_char_boundary s (Z.min (start_index start + l) (len s))); cbn [bind].
+  - split; [discriminate|]. intros (_ & _ & _ & Hc). discriminate.
+  - split; [intros [= <-]; auto|]. intros (-> & _). reflexivity.
+Qed.
+
 (** on ASCII text bytes are characters: SUBSTRING never panics and returns the requested window *)
 Definition ascii (s : list Z) : Prop := Forall (fun b => 0 <= b < 128) s.
 
